@@ -274,6 +274,16 @@ class TimeCachingAdapter(Adapter, NoBranchAdapter, ABC):
             else:
                 self._total_mem -= d[1].nbytes
 
+    def _unpack(self, where):
+        # cached data was pulled from the source: it carries the input units,
+        # which can differ from the units of the adapter's output info
+        if isinstance(where, str):
+            self.logger.profile("reading data from file %s", where)
+            data = np.load(where, allow_pickle=True)
+            return dtools.UNITS.Quantity(data, self._input_info.units)
+
+        return where
+
     def _finalize(self):
         """Removes remaining data files of the adapter's cache."""
         for _t, d in self.data:
